@@ -99,6 +99,51 @@ func (c *Ctx) ruleBuildConstraints() {
 				}
 			}
 		}
+		// BUILD-COVER: every source file belongs to at least one of the configurations the checks analyse (default
+		// amd64, purego, arm64, 386 — the last two in the thorough tier). Code behind any other build tag is code
+		// no check of any property has looked at.
+		{
+			var fns []string
+			for fn := range fileExpr {
+				fns = append(fns, fn)
+			}
+			sort.Strings(fns)
+			std := map[string]map[string]bool{
+				"amd64":  {"amd64": true, "gc": true, "linux": true, "unix": true},
+				"purego": {"amd64": true, "gc": true, "linux": true, "unix": true, "purego": true},
+				"arm64":  {"arm64": true, "gc": true, "linux": true, "unix": true},
+				"386":    {"386": true, "gc": true, "linux": true, "unix": true},
+			}
+			for _, fn := range fns {
+				ex := fileExpr[fn]
+				o := report.Obligation{Rule: "BUILD-COVER", Key: "BUILD-COVER/" + filepath.ToSlash(filepath.Join(sub, fn)), Pos: filepath.ToSlash(filepath.Join(sub, fn)), OK: true, Detail: "unconstrained: part of every configuration"}
+				if ex != nil {
+					var in []string
+					for _, cn := range []string{"amd64", "purego", "arm64", "386"} {
+						tags := std[cn]
+						if ex.Eval(func(t string) bool { return tags[t] || strings.HasPrefix(t, "go1.") }) {
+							in = append(in, cn)
+						}
+					}
+					ignored := false
+					for _, t := range tagsOf([]constraint.Expr{ex}) {
+						if t == "ignore" {
+							ignored = true
+						}
+					}
+					switch {
+					case len(in) > 0:
+						o.Detail = "selected by " + ex.String() + " in the analysed configuration(s) " + strings.Join(in, ", ")
+					case ignored:
+						o.Detail = "excluded from every build by the conventional `ignore` tag (a generator script)"
+					default:
+						o.OK = false
+						o.Detail = "the build constraint " + ex.String() + " selects this file in none of the analysed configurations (amd64, purego, arm64, 386): whatever it contains — an accessor to internal state, another implementation of a field routine — is code no check has analysed"
+					}
+				}
+				c.Set.Add(o)
+			}
+		}
 		var names []string
 		for n := range decls {
 			names = append(names, n)
